@@ -82,6 +82,7 @@ var programs = []string{
 	"<%= pluralize(\"box\") %>|<%= camelize(\"a_b\") %>|<%= pathFor(\"/x\") %>",
 	"<%= toJSON(xs) %>|<%= debug(x) %>",
 	"<%= tag() %>|<%= tag({id: x}) %>",
+	"<% let r = spare + x %><%= r[1] %>|<%= len(spare) %>", // a + x must not write into a's spare capacity
 }
 
 // tag writes defaults into the options it was given, as tag helpers do; the options
@@ -99,6 +100,7 @@ func fill(ctx *plush.Context, x, y int) {
 	ctx.Set("x", x)
 	ctx.Set("y", y)
 	ctx.Set("xs", []int{x, y})
+	ctx.Set("spare", make([]int, 1, 4))
 	ctx.Set("blk", blk)
 	ctx.Set("tag", tag)
 	ctx.Set("partialFeeder", func(string) (string, error) { return "P<%= v %>", nil })
